@@ -122,6 +122,10 @@ def _dataset(case, rng, variant):
         w = rng.choice([1.0, 5.0, 0.5], size=n)
     # query points inside the range of the data (kernel weights do not underflow)
     Xq = np.vstack([X[: min(2, n)], rng.uniform(-2, 4, size=(int(rng.integers(1, 3)), d)).round(2)])
+    if variant % 4 == 2:
+        # integer feature matrices (the wrappers validate X with dtype=None: the dtype of the query points must
+        # not leak into the predictions)
+        X, Xq = np.round(X).astype(int), np.round(Xq).astype(int)
     return X, y, w, Xq
 
 
